@@ -1,3 +1,125 @@
+/-
+  Props/C17.lean — C17: concurrent edits to separate parts of a document commute after rebasing.
+  Proved for pairs of replace steps (the steps every replace-family operation, split and join emit);
+  pairs involving mark / replace-around steps are covered by the correspondence run and the
+  convergence search (with the known finding "mark step vs. parent-retyping replace", DESIGN.md).
+  Helper lemmas: Proofs/Commute.lean.
+-/
 import PM.Step
+import Proofs.StepToks
+import Proofs.Commute
 namespace PM.C17
+open PM
+
+/-- **rebasing never drops a step that touches a separate part** (replace step over a replace step's
+    map, ranges separated by at least one untouched token), and the rebased range is the shifted one -/
+theorem rebase_separated_after (f1 t1 f2 t2 : Nat) (s1 s2 : Slice) (b1 b2 : Bool)
+    (h1 : f1 ≤ t1) (h2 : f2 ≤ t2) (hsep : t1 < f2) (hs1 : 0 ≤ s1.size) :
+    (Step.replace f2 t2 s2 b2).map (Step.replace f1 t1 s1 b1).getMap =
+      some (.replace ((f2 : Int) + s1.size - (t1 - f1)).toNat ((t2 : Int) + s1.size - (t1 - f1)).toNat s2 false) ∧
+    (Step.replace f1 t1 s1 b1).map (Step.replace f2 t2 s2 b2).getMap = some (.replace f1 t1 s1 false) := by
+  have e1 : ∀ a : Int, (Step.replace f1 t1 s1 b1).getMap.mapResult (f2 : Int) a
+      = { pos := (f2 : Int) + (s1.size - ((t1 : Int) - f1)) } :=
+    fun a => mapResult_one_after _ _ _ _ a (by omega) (by omega)
+  have e2 : ∀ a : Int, (Step.replace f1 t1 s1 b1).getMap.mapResult (t2 : Int) a
+      = { pos := (t2 : Int) + (s1.size - ((t1 : Int) - f1)) } :=
+    fun a => mapResult_one_after _ _ _ _ a (by omega) (by omega)
+  have e3 : ∀ a : Int, (Step.replace f2 t2 s2 b2).getMap.mapResult (f1 : Int) a = { pos := (f1 : Int) } :=
+    fun a => mapResult_one_before _ _ _ _ a (by omega)
+  have e4 : ∀ a : Int, (Step.replace f2 t2 s2 b2).getMap.mapResult (t1 : Int) a = { pos := (t1 : Int) } :=
+    fun a => mapResult_one_before _ _ _ _ a (by omega)
+  constructor
+  · simp only [Step.map, e1, e2, deleted_zero]
+    simp only [Bool.false_and, Bool.false_eq_true, if_false, Option.some.injEq, Step.replace.injEq,
+      and_true]
+    constructor
+    · congr 1; omega
+    · congr 1; omega
+  · simp only [Step.map, e3, e4, deleted_zero]
+    simp only [Bool.false_and, Bool.false_eq_true, if_false, Option.some.injEq, Step.replace.injEq,
+      and_true]
+    constructor
+    · omega
+    · omega
+
+/-- **convergence**: two replace steps on the same document whose ranges are separated by at least
+    one token, each rebased over the other's map: whenever both orders apply, both orders yield the
+    same token sequence `d[:f1] ++ S1 ++ d[t1:f2] ++ S2 ++ d[t2:]` -/
+theorem commute_replace_toks (S : Schema) (d da db dab dba : Node) (f1 t1 f2 t2 : Nat) (s1 s2 : Slice)
+    (b1 b2 : Bool) (a' b' : Step) (hsep : t1 < f2)
+    (ha : S.apply (.replace f1 t1 s1 b1) d = .ok da)
+    (hb : S.apply (.replace f2 t2 s2 b2) d = .ok db)
+    (hb' : (Step.replace f2 t2 s2 b2).map (Step.replace f1 t1 s1 b1).getMap = some b')
+    (ha' : (Step.replace f1 t1 s1 b1).map (Step.replace f2 t2 s2 b2).getMap = some a')
+    (hab : S.apply b' da = .ok dab) (hba : S.apply a' db = .ok dba) :
+    ftoks dab.kids = (ftoks d.kids).take f1 ++ s1.toks ++ ((ftoks d.kids).drop t1).take (f2 - t1) ++ s2.toks ++ (ftoks d.kids).drop t2 ∧
+    ftoks dba.kids = ftoks dab.kids := by
+  have ka := apply_replace_fromReplace S d da f1 t1 s1 b1 ha
+  have kb := apply_replace_fromReplace S d db f2 t2 s2 b2 hb
+  obtain ⟨hda, h1, hl1, hwf1, _⟩ := fromReplace_toks S d da f1 t1 s1 ka
+  obtain ⟨hdb, h2, hl2, hwf2, _⟩ := fromReplace_toks S d db f2 t2 s2 kb
+  obtain ⟨hlen1, hs1⟩ := Slice.toks_length_of_wf s1 hwf1
+  obtain ⟨r1, r2⟩ := rebase_separated_after f1 t1 f2 t2 s1 s2 b1 b2 h1 h2 hsep hs1
+  rw [r1] at hb'; rw [r2] at ha'
+  simp only [Option.some.injEq] at hb' ha'
+  subst hb' ha'
+  obtain ⟨hdab, _, _, _⟩ := apply_replace_toks S da dab _ _ s2 false hab
+  obtain ⟨hdba, _, _, _⟩ := apply_replace_toks S db dba _ _ s1 false hba
+  rw [← ftoks_length] at hl2
+  have n1 : ((f2 : Int) + s1.size - (t1 - f1)).toNat = f1 + s1.toks.length + (f2 - t1) := by omega
+  have n2 : ((t2 : Int) + s1.size - (t1 - f1)).toNat = f1 + s1.toks.length + (t2 - t1) := by omega
+  have eab : ftoks dab.kids = (ftoks d.kids).take f1 ++ s1.toks ++ ((ftoks d.kids).drop t1).take (f2 - t1)
+      ++ s2.toks ++ (ftoks d.kids).drop t2 := by
+    rw [hdab, hda, n1, n2]
+    exact splice_after _ _ _ f1 t1 f2 t2 _ h1 (by omega) h2 hl2 rfl
+  refine ⟨eab, ?_⟩
+  rw [eab, hdba, hdb]
+  exact splice_before _ _ _ f1 t1 f2 t2 h1 (by omega) h2 hl2
+
+/-- … hence equal documents (normal form, which every library operation returns) -/
+theorem commute_replace (S : Schema) (d da db dab dba : Node) (f1 t1 f2 t2 : Nat) (s1 s2 : Slice)
+    (b1 b2 : Bool) (a' b' : Step) (hsep : t1 < f2)
+    (ha : S.apply (.replace f1 t1 s1 b1) d = .ok da)
+    (hb : S.apply (.replace f2 t2 s2 b2) d = .ok db)
+    (hb' : (Step.replace f2 t2 s2 b2).map (Step.replace f1 t1 s1 b1).getMap = some b')
+    (ha' : (Step.replace f1 t1 s1 b1).map (Step.replace f2 t2 s2 b2).getMap = some a')
+    (hab : S.apply b' da = .ok dab) (hba : S.apply a' db = .ok dba)
+    (hn1 : fnorm dab.kids = true) (hn2 : fnorm dba.kids = true) : dab = dba := by
+  have htoks := (commute_replace_toks S d da db dab dba f1 t1 f2 t2 s1 s2 b1 b2 a' b' hsep ha hb hb' ha'
+    hab hba).2
+  have hk : dba.kids = dab.kids := ftoks_inj _ _ hn2 hn1 htoks
+  have ka := apply_replace_fromReplace S d da f1 t1 s1 b1 ha
+  have kb := apply_replace_fromReplace S d db f2 t2 s2 b2 hb
+  obtain ⟨_, h1, _, hwf1, _⟩ := fromReplace_toks S d da f1 t1 s1 ka
+  obtain ⟨_, h2, _, _, _⟩ := fromReplace_toks S d db f2 t2 s2 kb
+  obtain ⟨_, hs1⟩ := Slice.toks_length_of_wf s1 hwf1
+  obtain ⟨r1, r2⟩ := rebase_separated_after f1 t1 f2 t2 s1 s2 b1 b2 h1 h2 hsep hs1
+  rw [r1] at hb'; rw [r2] at ha'
+  simp only [Option.some.injEq] at hb' ha'
+  subst hb' ha'
+  obtain ⟨ty, a, m, k, ka', rfl, rfl⟩ := apply_replace_elem S d da f1 t1 s1 b1 ha
+  obtain ⟨ty2, a2, m2, k2, kb', e, rfl⟩ := apply_replace_elem S _ db f2 t2 s2 b2 hb
+  cases e
+  obtain ⟨ty3, a3, m3, k3, kab, e, rfl⟩ := apply_replace_elem S _ dab _ _ s2 false hab
+  cases e
+  obtain ⟨ty4, a4, m4, k4, kba, e, rfl⟩ := apply_replace_elem S _ dba _ _ s1 false hba
+  cases e
+  simp only [Node.kids] at hk
+  rw [hk]
+
+/-- markup steps (mark, node-mark, attribute) on separate tokens are never dropped either: mapping a
+    position strictly outside a replace step's range through its map does not set `deleted` -/
+theorem outside_not_deleted (f t : Nat) (sl : Slice) (b : Bool) (p : Nat) (a : Int)
+    (hft : f ≤ t) (hp : p < f ∨ t < p) (hs : 0 ≤ sl.size) :
+    ((Step.replace f t sl b).getMap.mapResult p a).deleted = false ∧
+    ((Step.replace f t sl b).getMap.mapResult p a).deletedAfter = false := by
+  rcases hp with hp | hp
+  · have e : (Step.replace f t sl b).getMap.mapResult (p : Int) a = { pos := (p : Int) } :=
+      mapResult_one_before _ _ _ _ a (by omega)
+    rw [e]; exact ⟨deleted_zero _, deletedAfter_zero _⟩
+  · have e : (Step.replace f t sl b).getMap.mapResult (p : Int) a
+        = { pos := (p : Int) + (sl.size - ((t : Int) - f)) } :=
+      mapResult_one_after _ _ _ _ a (by omega) (by omega)
+    rw [e]; exact ⟨deleted_zero _, deletedAfter_zero _⟩
+
 end PM.C17
